@@ -75,6 +75,7 @@ type Problem struct {
 }
 
 type FS struct {
+	tmu      sync.RWMutex // guards the tree (Kids maps, Removed flags): sessions may call into the FS concurrently
 	mu       sync.Mutex
 	Root     *Node
 	nextID   *uint64
@@ -197,6 +198,7 @@ type Handle struct {
 	released    int32
 	opened      bool
 	calls       int32
+	createdFrom *Handle // the directory handle whose Create produced this entry
 }
 
 func (h *Handle) State() int32 { return atomic.LoadInt32(&h.state) }
@@ -244,7 +246,14 @@ func (h *Handle) OpenDir(ctx context.Context) (p9p.ReadNext, error) {
 		return nil, fmt.Errorf("opendir %s: %w", h.Node.Path(), ErrInjectedFS)
 	}
 	h.opened = true
+	if h.createdFrom != nil {
+		// the create of this directory is now complete: its parent handle is consumed
+		h.createdFrom.MarkConsumed()
+		h.createdFrom = nil
+	}
+	h.fs.tmu.RLock()
 	names := h.Node.KidNames()
+	h.fs.tmu.RUnlock()
 	pos := 0
 	return func(ctx context.Context) ([]p9p.Dir, error) {
 		nc := h.enter(&Call{Op: "next", Ctx: ctx}, false)
@@ -261,6 +270,8 @@ func (h *Handle) OpenDir(ctx context.Context) (p9p.ReadNext, error) {
 			k = len(names) - pos
 		}
 		var out []p9p.Dir
+		h.fs.tmu.RLock()
+		defer h.fs.tmu.RUnlock()
 		for _, nm := range names[pos : pos+k] {
 			if kid := h.Node.Kids[nm]; kid != nil {
 				out = append(out, kid.Stat())
@@ -280,7 +291,9 @@ func (h *Handle) Walk(ctx context.Context, names ...string) ([]p9p.Qid, p9p.Dire
 		c.Failed = true
 		return nil, nil, fmt.Errorf("walk: %w", ErrInjectedFS)
 	}
+	h.fs.tmu.RLock()
 	qids, target, kind := ResolveWalk(h.Node, names)
+	h.fs.tmu.RUnlock()
 	if c.Fault == FaultNil {
 		c.Failed = true
 		return qids, nil, nil
@@ -306,23 +319,25 @@ func (h *Handle) Walk(ctx context.Context, names ...string) ([]p9p.Qid, p9p.Dire
 func (h *Handle) Create(ctx context.Context, name string, perm uint32, mode p9p.Flag) (p9p.Dirent, p9p.File, error) {
 	c := h.enter(&Call{Op: "create", Name: name, Perm: perm, Mode: mode, Ctx: ctx}, false)
 	defer h.exit(c)
+	h.fs.tmu.Lock()
 	kind := CreateOutcome(h.Node, name)
 	if c.Fault == FaultErr || kind == CreateErr {
+		h.fs.tmu.Unlock()
 		c.Failed = true
 		return nil, nil, fmt.Errorf("create %q: %w", name, ErrInjectedFS)
 	}
 	if c.Fault == FaultNil {
+		h.fs.tmu.Unlock()
 		c.Failed = true
 		return nil, nil, nil
 	}
-	h.fs.mu.Lock()
 	*h.fs.nextID++
 	n := &Node{ID: *h.fs.nextID, Name: name, Dir: perm&p9p.DMDIR != 0, Parent: h.Node}
 	if n.Dir {
 		n.Kids = map[string]*Node{}
 	}
 	h.Node.Kids[name] = n
-	h.fs.mu.Unlock()
+	h.fs.tmu.Unlock()
 	nh := h.fs.newHandle(n, "create")
 	c.NewH = nh.ID
 	switch kind {
@@ -339,6 +354,11 @@ func (h *Handle) Create(ctx context.Context, name string, perm uint32, mode p9p.
 		nh.ExpectBound = false // the session cannot complete the create; it never becomes bound
 	}
 	nh.opened = !n.Dir
+	if n.Dir {
+		nh.createdFrom = h // consumed once the session has opened the new directory
+	} else {
+		defer h.MarkConsumed() // a successful create consumes the parent entry: no call on it may follow
+	}
 	return nh, &HFile{nh}, nil
 }
 
@@ -365,16 +385,16 @@ func (h *Handle) Open(ctx context.Context, mode p9p.Flag) (p9p.File, error) {
 func (h *Handle) Remove(ctx context.Context) error {
 	c := h.enter(&Call{Op: "remove", Ctx: ctx}, true)
 	defer h.exit(c)
+	h.fs.tmu.Lock()
 	fails, detaches := RemoveOutcome(h.Node)
 	if c.Fault != NoFault {
 		fails, detaches = true, false
 	}
 	if detaches {
-		h.fs.mu.Lock()
 		delete(h.Node.Parent.Kids, h.Node.Name)
 		h.Node.Removed = true
-		h.fs.mu.Unlock()
 	}
+	h.fs.tmu.Unlock()
 	if fails {
 		c.Failed = true
 		return fmt.Errorf("remove %s: %w", h.Node.Path(), ErrInjectedFS)
